@@ -5,6 +5,15 @@ import sys
 from types import FrameType
 from typing import List, Tuple, Type, cast
 from ._lowlevel import FrameDetails
+import os
+
+if os.environ.get("STACKSCOPE_VERIF"):
+    from ._verif import hook as _verif_hook
+else:
+
+    def _verif_hook(*args: object) -> None:
+        pass
+
 
 
 wordsize = ctypes.sizeof(ctypes.c_size_t)
@@ -133,6 +142,7 @@ def inspect_frame(frame: FrameType) -> FrameDetails:
         # (ctypes copies the bytes when a structure is constructed from
         # another: one C call)
         snapshot = BlockStack.from_buffer_copy(blockstack_raw)
+        _verif_hook("inspect_frame:lasti", frame)
         executing = frame_raw.f_stacktop == 0
         del details.blocks[:]
 
@@ -190,6 +200,7 @@ def inspect_frame(frame: FrameType) -> FrameDetails:
                 )
                 details.stack = []
                 for i in range(stack_len):
+                    _verif_hook("inspect_frame:slot", frame, i)
                     assert f_lasti.value == snapshot.f_lasti
                     try:
                         # Read the PyObject* from memory and take a reference
@@ -200,6 +211,7 @@ def inspect_frame(frame: FrameType) -> FrameDetails:
                         # record those as None.
                         obj = None
                     details.stack.append(obj)
+                _verif_hook("inspect_frame:post_stack", frame)
                 assert f_lasti.value == snapshot.f_lasti
             else:
                 # Suspended: map the addresses on the stack back to actual
